@@ -40,12 +40,12 @@ def _default(chk, ctx) -> None:
     for p in ctx.paths(fi):
         if not p.returned:
             continue
-        cs = [unversion(c) for c in p.conds()]
+        cs = [unversion(c) for c in p.conds(flat=True)]
         r = unversion(p.outcome[1])
         if r[0] != 'tuple':
             continue
         status, pi = r[1][0], r[1][-1]
-        if none in cs and T.mk_not(isbool) in cs:
+        if none in cs:
             got = status
             w = T.subst(want, {('name', 'P'): pi})
             ok_default = T.truthy(status) == w or status == w
